@@ -56,6 +56,10 @@ RESOLVER = [None]   # optional: name -> FunctionDef of a module-level predicate 
 
 def expr_formula(e, env=None, depth=0):  # noqa: C901, PLR0911
     env = env or {}
+    if isinstance(e, ast.Name) and '#f:' + e.id in env:
+        return env['#f:' + e.id]    # a result flag computed by a loop (see block_formula)
+    if isinstance(e, ast.Name) and isinstance(env.get(e.id), ast.AST) and not isinstance(env[e.id], ast.Name):
+        return expr_formula(env[e.id], {k: v for k, v in env.items() if k.startswith('#f:')}, depth)   # already written out
     if isinstance(e, ast.Call) and isinstance(e.func, ast.Name) and RESOLVER[0] is not None and not e.keywords:
         callee = RESOLVER[0](e.func.id)
         if callee is not None and len(callee.args.args) == len(e.args) and not callee.args.vararg and not callee.args.kwarg:
@@ -189,6 +193,9 @@ def block_formula(stmts, env=None, depth=0):  # noqa: C901
         return mk('or', [mk('and', [c, then]), mk('and', [neg(c), other])])
     if isinstance(st, ast.Assign) and len(st.targets) == 1 and isinstance(st.targets[0], ast.Name):
         env2 = dict(env)
+        env2.pop('#f:' + st.targets[0].id, None)
+        if isinstance(st.value, ast.Name) and '#f:' + st.value.id in env:
+            env2['#f:' + st.targets[0].id] = env['#f:' + st.value.id]
         env2[st.targets[0].id] = _subst(st.value, env)
         return block_formula(rest, env2, depth)
     if isinstance(st, ast.For) and isinstance(st.target, ast.Name) and not st.orelse and len(st.body) == 1 and \
@@ -207,8 +214,19 @@ def block_formula(stmts, env=None, depth=0):  # noqa: C901
         var = f'${depth}'
         env2 = dict(env, **{st.target.id: var})
         cond, ret = _early(list(st.body), env2, depth + 1)
-        tail = block_formula(rest, env, depth)
         it = _rename(st.iter, env)
+        if isinstance(ret, tuple):
+            # `flag = INIT ... for x in XS: if C(x): flag = not INIT; break` - the single-exit spelling of an early return:
+            # afterwards flag is `forall x: not C` (INIT True) / `exists x: C` (INIT False)
+            _tag, name, value = ret
+            init = env.get(name)
+            if not (isinstance(init, ast.Constant) and isinstance(init.value, bool) and init.value != value) or \
+                    '#f:' + name in env:
+                raise AnalysisError(f'boolform: flag {name} is not initialised with the opposite constant before the loop')
+            env3 = dict(env)
+            env3['#f:' + name] = ('forall', it, neg(cond)) if value is False else ('exists', it, cond)
+            return block_formula(rest, env3, depth)
+        tail = block_formula(rest, env, depth)
         if ret is False:   # some element with cond -> False ; else continue
             return mk('and', [('forall', it, neg(cond)), tail])
         return mk('or', [('exists', it, cond), tail])
@@ -231,6 +249,11 @@ def _early(stmts, env, depth):
             if len(st.body) == 1 and isinstance(st.body[0], ast.Return) and isinstance(st.body[0].value, ast.Constant) \
                     and isinstance(st.body[0].value.value, bool):
                 r = st.body[0].value.value
+                inner = ('const', True)
+            elif len(st.body) == 2 and isinstance(st.body[1], ast.Break) and isinstance(st.body[0], ast.Assign) and \
+                    len(st.body[0].targets) == 1 and isinstance(st.body[0].targets[0], ast.Name) and \
+                    isinstance(st.body[0].value, ast.Constant) and isinstance(st.body[0].value.value, bool):
+                r = ('flag', st.body[0].targets[0].id, st.body[0].value.value)
                 inner = ('const', True)
             else:
                 inner, r = _early(list(st.body), env, depth)
